@@ -26,7 +26,7 @@ REAL = ["rpyc.core.protocol.Connection (boxing, proxy cache, _handle_del, cleanu
         "rpyc.lib.colls.RefCountingColl / WeakValueDict", "rpyc.core.async_", "rpyc.utils.helpers.async_", "channel/stream"]
 STUB = ["sockets/poll/time/locks (simulator); the link holds frames until the history delivers them"]
 ASSUMPTIONS = ["CPython reference counting runs finalizers immediately (deterministic)", "in-memory kernel fidelity"]
-PROBES = ["c10:decref-kept-slot", "c10:reused-live-proxy"]
+PROBES = ["c10:decref-kept-slot", "c10:reused-live-proxy", "c10:threads-run"]
 
 
 class CollSpy(object):
@@ -113,10 +113,148 @@ class Actor(object):
         self.mail.append(fn)
 
 
+TRACE_FILES = ("rpyc/lib/colls.py", "rpyc/core/protocol.py")
+TRACE_FUNCS = {"add", "decref", "__getitem__", "_box", "_handle_del", "_unbox"}
+
+
+def run_threads(choices, params, w, c):
+    """the owner's connection is used by two threads - one sending, one serving (the BgServingThread arrangement) - so that the
+    peer's release notices are processed *while* the owner lends the same object again; source-line pre-emption inside the
+    reference table and boxing"""
+    import rpyc
+    if c.draw(2):
+        # window widening at the lines of the reference table's add / decref
+        import inspect
+        from rpyc.lib import colls
+        lines = set()
+        for fn in (colls.RefCountingColl.add, colls.RefCountingColl.decref):
+            src, first = inspect.getsourcelines(fn)
+            lines.update(range(first, first + len(src)))
+        strat = ("hot", c.pick((300, 500, 700)), c.pick((5, 20)), frozenset(lines))
+    else:
+        strat = c.pick((("random", 100), ("random", 300), ("bounded", 2, 300), ("bounded", 3, 300), ("pct", 3, 300), ("random", 500)))
+    nobj = 1 + w.draw(2)
+    info = {"ops": [], "dead": 0}
+
+    def main(sim, k):
+        objs = [Thing(i) for i in range(nobj)]
+
+        class SvcB(rpyc.Service):
+            def on_connect(self, conn):
+                self.kept = {}
+
+            def exposed_take(self, x, i, keep):
+                if keep:
+                    self.kept[i] = x
+                return i
+
+            def exposed_drop(self, i):
+                self.kept.pop(i, None)
+                return i
+
+            def exposed_use(self):
+                return tuple((i, p.tag()) for i, p in sorted(self.kept.items()))
+        ca, cb, _ = pair.connect_pair(k, rpyc.VoidService(), SvcB(), cfg_a={"sync_request_timeout": 30}, cfg_b={"sync_request_timeout": 30},
+                                      tap=False)
+        srvb = sim.spawn(cb.serve_all, _name="B.serve_all")
+        # single-threaded set-up; afterwards this (sending) thread never receives: it only issues asynchronous requests, the
+        # background thread does all the serving - so the known stall of two *receiving* threads (C13/C14) cannot interfere
+        root = ca.root
+        take, drop, use = root.take, root.drop, root.use
+        atake, adrop, ause = rpyc.async_(take), rpyc.async_(drop), rpyc.async_(use)
+        ause().wait()
+        active = [True]
+
+        def bg():
+            try:
+                while active[0]:
+                    ca.serve(0.125)
+            except EOFError:
+                pass
+        tbg = sim.spawn(bg, _name="A.bg-serving")
+        held_by_b = set()
+        pend = []
+
+        def finish(res, what):
+            """wait (without serving) until the background thread has delivered the result"""
+            if not sim.block(lambda: res._is_ready, 60, "await:" + what):
+                raise core.Violation("hang", "%s not answered within 60 virtual s; history %r" % (what, info["ops"]))
+            try:
+                return res.value
+            except KeyError as e:
+                raise core.Violation("use-after-release", "%s: a reference the peer holds (or was just sent) does not resolve at the owner: "
+                                     "KeyError%r; history %r" % (what, e.args, info["ops"]))
+            except Exception as e:
+                raise core.Violation("request-failed/" + type(e).__name__, "%s raised %s: %s; history %r" % (what, type(e).__name__, str(e)[:200],
+                                                                                                      info["ops"]))
+
+        def settle():
+            for r in pend:
+                finish(r, "take")
+            del pend[:]
+
+        def check_use():
+            settle()
+            try:
+                got = finish(ause(), "use")
+            except KeyError as e:
+                raise core.Violation("use-after-release", "a proxy the peer holds no longer resolves at the owner: KeyError%r; history %r" % (
+                    e.args, info["ops"]))
+            want = tuple((j, ("thing", j)) for j in sorted(held_by_b))
+            if tuple(got) != want:
+                raise core.Violation("use-after-release", "the peer used its kept proxies: got %r, expected %r" % (got, want))
+        for step in range(5 + w.draw(14)):
+            op = w.pick(("take-keep", "take-drop", "take-drop", "take-drop", "take-keep", "drop", "use", "settle"))
+            i = w.draw(nobj)
+            info["ops"].append((op, i))
+            if op.startswith("take"):
+                keep = op.endswith("keep")
+                pend.append(atake(objs[i], i, keep))
+                if keep:
+                    held_by_b.add(i)
+                if w.draw(2):
+                    sim.sleep(w.pick((0.001, 0.01)))       # let replies and release notices come back in between
+            elif op == "drop":
+                settle()
+                finish(adrop(i), "drop")
+                held_by_b.discard(i)
+            elif op == "use":
+                check_use()
+            else:
+                settle()
+        check_use()
+        for i in sorted(held_by_b):
+            finish(adrop(i), "drop")
+        finish(ause(), "use")
+        # quiescence: every proxy dropped, release notices processed
+        def clean():
+            return not any(o is v[0] for v in list(ca._local_objects._dict.values()) for o in objs)
+        if not sim.block(clean, 20, "wait-release"):
+            left = [(v[0], v[1]) for v in ca._local_objects._dict.values() if any(o is v[0] for o in objs)]
+            raise core.Violation("leak-at-quiescence", "two threads on the owner's connection: all proxies dropped and 20 virtual s passed, "
+                                 "the owner's table still holds %r; history %r" % (left, info["ops"]))
+        sim.count("c10:threads-run")
+        active[0] = False
+        del take, drop, use, atake, adrop, ause, root
+        ca.close()
+        sim.block(lambda: srvb.state == core.DONE and tbg.state == core.DONE, 10, "wait-end")
+        return True
+
+    cfg = net.NetCfg(lazy=False)
+    out, sim = H.simulate(choices, main, strategy=strat, netcfg=cfg, trace_files=TRACE_FILES, trace_funcs=TRACE_FUNCS, step_cap=600000)
+    if out["kind"] == "deadlock":
+        out = {"kind": "violation", "cls": "hang", "detail": "deadlock: %s" % (H.blocked_in(out["report"]),), "sig": None,
+               "report": out["report"]}
+    sample = {"mode": "two threads on the owner's connection", "objects": nobj, "history": info["ops"][:40], "strategy": list(strat[:3])}
+    return H.result_from(out, sim, states=["threads:%d" % nobj], nontrivial=True, sample=sample, strategy=strat[0], ntkey=sim.sched_digest())
+
+
 def run_one(choices, params):
     import rpyc
     w = choices.stream("work")
     c = choices.stream("cfg")
+    if (params.get("mode") or ("threads" if w.draw(3) == 0 else "history")) == "threads":
+        return run_threads(choices, params, w, c)
     nobj = 1 + w.draw(4)
     nsteps = 6 + w.draw(40)
     info = {"states": set(), "cross": 0, "both": 0, "steps": []}
